@@ -666,7 +666,11 @@ class Node:
         Returns:
             the new :class:`~nutree.node.Node` instance
         """
-        if isinstance(child, self._tree.__class__):
+        from nutree.tree import Tree  # local import (circular dependency)
+
+        if isinstance(child, Tree):
+            # Note: don't test against `self._tree.__class__`: the source may be
+            # a plain Tree, while the target is an instance of a derived class
             if deep is None:
                 deep = True
             return self._add_nodes(child._root.children, before=before, deep=deep)
